@@ -31,6 +31,7 @@ Act == \/ IsEvent("Add") /\ Add(E.a, E.b)
        \/ IsEvent("SvcConnect") /\ SvcConnect(E.a, E.b = "good")
        \/ IsEvent("SvcReg") /\ SvcReg(E.a, What(E.b), Item(E.b))
        \/ IsEvent("SvcDisconnect") /\ SvcDisconnect(E.a)
+       \/ IsEvent("SvcLeaveTogether") /\ SvcLeaveTogether
 
 Owned(f) == {x \in Items : f[x] # None}
 Bound == /\ obs'.run = run' /\ obs'.dupl = dupl' /\ obs'.db = db' /\ obs'.adv = adv' /\ obs'.port = port'
